@@ -205,6 +205,17 @@ def run(ctx):
         chk.ob("C07.c", f"{grm.path} [counter value]", okc, "counter value = counter.get_inner().load(Acquire) of the visited handle" if okc else "the counter value in the snapshot is not the atomic load of the visited handle", grm.loc())
         chk.ob("C07.c", f"{grm.path} [gauge value]", okg, "gauge value = f64::from_bits(gauge.get_inner().load(Acquire)) of the visited handle" if okg else "the gauge value in the snapshot is not from_bits(load) of the visited handle", grm.loc())
 
+    # scalar series are written as the numbers they are: the counter's u64 goes to write_metric_line as an integer
+    # (a detour through f64 rounds totals above 2^53), no scalar value is numerically converted on the way
+    rnd = (p.method(INNER, "render") or [None])[0]
+    if rnd is not None:
+        scal = [m for m in metric_lines(rnd) if m["suffix"] is None and m["label"] is None]
+        PRIM = {"u8", "u16", "u32", "u64", "u128", "usize", "i8", "i16", "i32", "i64", "i128", "isize", "f32", "f64"}
+        tys = [(m["c"].t.get("gargs") or [None, None])[1] for m in scal]
+        casts = [m for m in scal if any(isinstance(x, tuple) and x and x[0] == "cast" for x in sym_walk(m["value"]))]
+        ok = bool(scal) and not casts and (not all(t in PRIM for t in tys) or "u64" in tys)
+        chk.ob("C07.c", f"{rnd.path} [scalar values written unconverted]", ok, f"{len(scal)} scalar sample line(s), value types {tys}, no numeric conversion between the snapshot and the line" if ok else (f"a scalar series' value is numerically converted before it is written (line {casts[0]['c'].line})" if casts else f"scalar series are written with value types {tys}: the counter total (u64) is not written as an integer"), rnd.loc())
+
     # ---------------- C07.d
     ktp = p.fn("metrics_exporter_prometheus::formatting::key_to_parts")
     if need(chk, "C07.d", "formatting::key_to_parts", ktp):
@@ -278,10 +289,11 @@ def run(ctx):
             f = rec.get(f"describe_{k}")
             if f:
                 cs = [c for c in nonforeign_calls(f) if c.is_("PrometheusRecorder::add_description_if_missing")]
-                ok = len(cs) == 1 and len(nonforeign_calls(f)) == 1
+                VIEW = ("Deref::deref", "AsRef::as_ref", "Borrow::borrow", "Arc<T>::deref", "Arc<T, A>::deref")
+                ok = len(cs) == 1 and all((c.fn is cs[0].fn and c.bb == cs[0].bb) or c.is_(*VIEW) for c in nonforeign_calls(f))
                 if ok:
                     a = arg_syms(cs[0])
-                    ok = is_param(a[1], 1) and is_param(a[2], 3) and is_param(a[3], 2)
+                    ok = is_param(sym_through(a[1], *VIEW), 1) and is_param(a[2], 3) and is_param(a[3], 2)
                 chk.ob("C07.e", f.path, ok, "add_description_if_missing(&name, description, unit)" if ok else "describe does not pass (name, description, unit) to add_description_if_missing in those positions", f.loc())
             f = rec.get(f"register_{k}")
             if f:
@@ -308,6 +320,8 @@ def _imports(ctx):
 
     import_rules(ctx, "C05", {"C05.b", "C05.c", "C05.d", "C05.e"}, "C07.g", "imported from C05 (the histogram storage the exporter drains): a detached block is read only after its in-flight writes are waited for, blocks are linked before they are published, claims are fenced before a block is read, one clearer wins the detach — otherwise a sample recorded concurrently with render()/run_upkeep() is counted zero times", floor=6)
     import_rules(ctx, "C04", {"C04.b"}, "C07.h", "imported from C04 (the counter/gauge storage whose value is rendered): counter increment/absolute and gauge updates are single atomic read-modify-write operations — otherwise the rendered total is not the sum of increments / the highest absolute value", floor=5)
+    import_rules(ctx, "C06", {"C06.b", "C06.c", "C06.e"}, "C07.i", "imported from C06 (the registry the recorder registers into and render() lists): one hash/shard/key per lookup, check-and-insert in one critical section, every constructed Key carries the hash of its own (name, labels) — otherwise updates through equal keys land in two storages of which render() reports one", floor=12)
+    import_rules(ctx, "C03", {"C03.a", "C03.c"}, "C07.j", "imported from C03 (Key hash/equality contract behind the registry lookup): same canonical form in hasher, == and cmp; lazily memoised hash published before its flag — otherwise equal keys are split over two series", floor=7)
 
 
 def run_config(ctx):
